@@ -140,9 +140,14 @@ def deserializeFrom (b : Bytes) : Nat → Nat → Outcome (List Cell × Nat)
     | .err e => .err e
     | .fault w => .fault w
 
-/-- `deserializeCellBlocks(b, cellsLen)` (the allocation `make([]*pb.Cell, cellsLen)` is not
-modelled). -/
+/-- `const minCellLen = 4 + 4 + 4 + 2 + 1 + 8 + 1` -/
+def minCellLen : Nat := 4 + 4 + 4 + 2 + 1 + 8 + 1
+
+/-- `deserializeCellBlocks(b, cellsLen)`: the count comes from the wire, so a count the buffer
+cannot back (`uint64(cellsLen) > uint64(len(b))/minCellLen`) is refused before
+`make([]*pb.Cell, cellsLen)` (fix 82d9302; the allocation itself is not modelled). -/
 def deserializeCellBlocks (b : Bytes) (cellsLen : Nat) : Outcome (List Cell × Nat) :=
+  if b.length / minCellLen < cellsLen then .err "buffer is too small for the cell count" else
   deserializeFrom b cellsLen 0
 
 /-! ### mutations -/
